@@ -569,7 +569,7 @@ func TestCheck(t *testing.T) {
 // ---- concurrent: real audit file through vos, gates at its write and sync calls ----
 
 func concurrentScenarios(thorough bool) []hx.Scenario {
-	ops := []Op{{Kind: "get", Name: "a"}, {Kind: "put", Name: "a", Value: "n"}, {Kind: "getcond", Name: "a", Ver: 2}, {Kind: "get", Name: "denied"}, {Kind: "list"}, {Kind: "delete", Name: "a"}}
+	ops := []Op{{Kind: "get", Name: "a"}, {Kind: "put", Name: "a", Value: "n"}, {Kind: "getcond", Name: "a", Ver: 2}, {Kind: "get", Name: "denied"}, {Kind: "list"}, {Kind: "delete", Name: "a"}, {Kind: "getcond", Name: "a", Ver: 1}, {Kind: "activate", Name: "a", Ver: 2}}
 	var out []hx.Scenario
 	for i, a := range ops {
 		for _, b := range ops[i:] {
@@ -696,7 +696,7 @@ func concScenario(progs [][]Op) func() *sched.Harness {
 						need = true
 					case r.res.hasValue && (r.op.Kind == "get" || r.op.Kind == "getcond"):
 						need = true
-					case r.res.class == model.OK && (r.op.Kind == "put" || r.op.Kind == "delete"):
+					case r.res.class == model.OK && (r.op.Kind == "put" || r.op.Kind == "delete" || r.op.Kind == "activate" || r.op.Kind == "delver"):
 						need = true
 					case r.op.Kind == "list":
 						need = true
@@ -727,6 +727,25 @@ func concScenario(progs [][]Op) func() *sched.Harness {
 				got := map[string]int{}
 				for _, e := range lines {
 					got[e.Principal.User+"|"+e.Action+"|"+e.Secret]++
+				}
+				// a conditional get that was answered "not changed" writes no record: per client and name, there
+				// are at most as many get records as get calls that were answered anything else
+				other := map[string]int{}
+				unchanged := map[string]bool{}
+				for _, r := range rets {
+					if r.op.Kind == "get" || r.op.Kind == "getcond" || r.op.Kind == "getver" {
+						k := r.who + "|" + string(r.op.action()) + "|" + r.op.Name
+						if r.op.Kind == "getcond" && r.res.class == model.NotChanged {
+							unchanged[k] = true
+						} else {
+							other[k]++
+						}
+					}
+				}
+				for k := range unchanged {
+					if got[k] > other[k] {
+						return fmt.Errorf("record for an unchanged conditional get: %q has %d records, but only %d of that client's get calls were answered with anything but \"not changed\"", k, got[k], other[k])
+					}
 				}
 				for k, n := range want {
 					if got[k] < n {
